@@ -2,4 +2,4 @@
 From Coq Require Import Extraction ExtrOcamlBasic.
 From T38 Require Import Base.Bytes Model.Glob Model.Roam.
 Extraction Language OCaml.
-Extraction "model.ml" Z.add Z.of_N Nat.add roam_parse roam_msgs fence_match_roam round_mm scan_ids.
+Extraction "model.ml" Z.add Z.of_N Nat.add is_glob roam_parse roam_msgs fence_match_roam round_mm scan_ids.
